@@ -203,17 +203,25 @@ func checkLexicalErrorSite(c *Ctx) {
 			}
 		}
 	}
+	if !sl.ok {
+		c.Undecided("R20.3", "the scan loop turns the error token into an error", s.nextFn.Pos(), "the treatment of the evaluated token was not understood")
+		return
+	}
 	c.Check("R20.3", "the scan loop turns the error token into an error", s.nextFn.Pos(), okErr, "the terminal of the error leaf is not among the terminals the scan loop reports as errors")
 	// the error's text is the token's Lexeme
 	textOK := false
 	for _, st := range sl.sites {
-		for _, b := range st.outFn.Blocks {
+		ofn := st.outFn
+		if sl.outFn != nil {
+			ofn = sl.outFn
+		}
+		for _, b := range ofn.Blocks {
 			for _, in := range b.Instrs {
 				call, ok := in.(*ssa.Call)
 				if !ok || staticCalleeName(call) != "errors.New" {
 					continue
 				}
-				for _, r := range rootsOf(st.outFn, call.Call.Args[0], nil) {
+				for _, r := range rootsOf(ofn, call.Call.Args[0], nil) {
 					if fa, ok := r.(*ssa.FieldAddr); ok && fieldName(fa) == "Lexeme" {
 						textOK = true
 					}
@@ -223,7 +231,7 @@ func checkLexicalErrorSite(c *Ctx) {
 	}
 	c.Check("R20.3", "the error text is the error token's message", s.nextFn.Pos(), textOK, "errors.New is not fed the evaluated token's Lexeme")
 	// an unterminated lexical element at the very end of the file is still reported: the pending lexeme is evaluated at end of input
-	if sl.ok {
+	if sl.pathsDone {
 		checkPendingAtEOF(c, "R20.3", sl, "internal/ebnf/lexer")
 	}
 	// line and column refer to the file: the text reaches the reader unmodified
